@@ -36,19 +36,19 @@ func (o Op) String() string {
 }
 
 type Domain struct {
-	NS      []string // known namespaces
-	BadNS   []string // unknown namespaces
-	Objs    []string
-	Rels    []string
-	Users   []string
+	NS       []string // known namespaces
+	BadNS    []string // unknown namespaces
+	Objs     []string
+	Rels     []string
+	Users    []string
 	AllowBad bool // generate invalid arguments (unknown namespace, nil subject)
 }
 
 var DefaultDomain = Domain{
 	NS: []string{"N0", "N1"}, BadNS: []string{"nope", ""},
-	Objs:  []string{"o0", "o1", "o2", ""},
-	Rels:  []string{"r0", "r1", ""},
-	Users: []string{"u0", "u1", "o0"},
+	Objs:     []string{"o0", "o1", "o2", ""},
+	Rels:     []string{"r0", "r1", ""},
+	Users:    []string{"u0", "u1", "o0"},
 	AllowBad: true,
 }
 
